@@ -1121,14 +1121,20 @@ pub fn work_list(cfg: &RunCfg) -> Option<WorkList> {
                 inject_items(&p, "exhaustive", None, &mut fixed);
             }
             for (k, w) in corpus::alt_order(false).iter().enumerate() {
-                if thorough || k % 2 == 0 {
+                if thorough || k % 5 == 0 {
                     inject_items(w, "alt-order", None, &mut fixed);
                 }
             }
             for (k, w) in corpus::compile_matrix(thorough).iter().enumerate() {
-                // every injection site of every matrix pattern is a lot: quick takes a fifth
-                if thorough || k % 5 == 0 {
+                // every injection site of every matrix pattern is a lot: quick takes a tenth
+                if thorough || k % 10 == 0 {
                     inject_items(w, "compile-matrix", None, &mut fixed);
+                }
+            }
+            // every site of every pattern is already a large product: N+1 only for the witnesses
+            for it in fixed.iter_mut() {
+                if it.gen != "witness" {
+                    it.n_extra = 0;
                 }
             }
             Some(WorkList { fixed, random_enabled: true, feats: corpus::FEATS_C01, max_depth: if thorough { 4 } else { 3 } })
